@@ -293,4 +293,117 @@ theorem ev_good : ∀ s : Sp, supported ptm s = true → ∃ o, ev ptm s = .ok o
       simp [ev, hevx, hevy, pipeObj, hfo, orFields, hnf, hc, hdd, getItem_of_gtli gx.gt]
 
 
+
+theorem sameMeaning_denote {s t : Sp} (h : SameMeaning s t) : denote s = denote t := by
+  induction h with
+  | scalar f g k => cases f <;> cases g <;> rfl
+  | lit d n m => rfl
+  | none => rfl
+  | bare f g c => cases f <;> cases g <;> rfl
+  | bareDict f g => cases f <;> cases g <;> rfl
+  | coll f g c _ ih => cases f <;> cases g <;> simp [mkColl, denote, ih]
+  | dict f g _ _ ihk ihv => cases f <;> cases g <;> simp [mkDict, denote, ihk, ihv]
+  | optional _ ih => simp [denote, ih]
+  | optionalAlt g _ ih => cases g <;> simp [mkAlt, denote, ih]
+  | altOptional f _ ih => cases f <;> simp [mkAlt, denote, ih]
+  | alt f g _ _ ihx ihy => cases f <;> cases g <;> simp [mkAlt, denote, ihx, ihy]
+
+theorem kwAllowed_fieldExpr {s : Sp} (h : kwAllowed s = true) : isFieldExpr s = true := by
+  cases s <;> simp [kwAllowed] at h <;> rfl
+
+theorem tryDefault_of_ok {O : Oracles} {d : FieldDecl} {v : PyVal} (h : defaultOk O d v = true) :
+    tryDefault O d v = .ok () := by
+  unfold defaultOk at h
+  unfold tryDefault
+  cases hv : validate O d v with
+  | ok y => simp
+  | error e => simp [hv] at h
+
+/-- Inside the supported region a field declaration elaborates to its documented meaning. -/
+theorem elabField_meaning' (O : Oracles) (future : Bool) (fs : FieldSp)
+    (h : fieldSupported O ptm future fs = true) : elabField O ptm future fs = fieldMeaning O fs := by
+  obtain ⟨name, mode, ty, dflt, inOpt⟩ := fs
+  simp only [fieldSupported, Bool.and_eq_true] at h
+  obtain ⟨⟨hs, hm⟩, hd⟩ := h
+  obtain ⟨o, hev, g⟩ := ev_good ty hs
+  have hgi := getItem_of_gtli g.gt
+  cases mode with
+  | ann =>
+    simp only [Bool.not_eq_true'] at hm
+    simp only [elabField, hm]
+    cases dflt with
+    | none =>
+      simp only [evTop, hev, bindE_ok, annField, fieldMeaning, DefaultSp.value, effOptional]
+      by_cases hf : isFieldObj o = true
+      · have hfe : isFieldExpr ty = true := by rw [← g.fo]; exact hf
+        simp [hf, hgi, finishField, hfe]
+      · have hfe : isFieldExpr ty = false := by rw [← g.fo]; simpa using hf
+        simp [hf, g.gt, afterGtli, finishField, hfe, Bool.or_comm]
+    | eq v n =>
+      simp only [Bool.and_eq_true] at hd
+      simp only [evTop, hev, bindE_ok, annField, fieldMeaning, DefaultSp.value]
+      by_cases hf : isFieldObj o = true
+      · simp [hf, hgi, finishField, hd.1]
+      · simp [hf, g.gt, afterGtli, finishField, hd.1]
+    | kw v n =>
+      simp only [Bool.and_eq_true, Bool.or_eq_true] at hd
+      obtain ⟨⟨hsc, hkw⟩, hok⟩ := hd
+      have ho := g.ki hkw
+      subst ho
+      simp only [evTop, hev, bindE_ok, hkw, hsc, fieldMeaning, DefaultSp.value, applyKw]
+      by_cases ht : truthy v = true
+      · cases htd : tryDefault O (denote ty) v with
+        | error e => simp [ht]
+        | ok u => simp [ht, annField, isFieldObj, getItem, finishField]
+      · have hok' : defaultOk O (denote ty) v = true := by
+          rcases hok with hok | hok
+          · exact absurd hok ht
+          · exact hok
+        simp [ht, tryDefault_of_ok hok', annField, isFieldObj, getItem, finishField]
+  | assign =>
+    simp only [elabField]
+    have hf : isFieldObj o = true := by rw [g.fo]; exact hm
+    cases dflt with
+    | none =>
+      simp only [evTop, hev, bindE_ok, fieldMeaning, DefaultSp.value, effOptional]
+      cases o with
+      | finst d =>
+        have : d = denote ty := by simpa [getItem] using hgi
+        subst this
+        simp [assignField, finishFieldNoCheck]
+      | fcls hh =>
+        have : defaultDecl hh = .ok (denote ty) := by simpa [getItem] using hgi
+        simp [assignField, this, finishFieldNoCheck]
+      | _ => simp [isFieldObj] at hf
+    | eq v n => simp at hd
+    | kw v n =>
+      simp only [Bool.and_eq_true, Bool.or_eq_true] at hd
+      obtain ⟨⟨hsc, hkw⟩, hok⟩ := hd
+      have ho := g.ki hkw
+      subst ho
+      simp only [evTop, hev, bindE_ok, hkw, hsc, fieldMeaning, DefaultSp.value, applyKw]
+      by_cases ht : truthy v = true
+      · cases htd : tryDefault O (denote ty) v with
+        | error e => simp [ht]
+        | ok u => simp [ht, assignField, finishFieldNoCheck]
+      · have hok' : defaultOk O (denote ty) v = true := by
+          rcases hok with hok | hok
+          · exact absurd hok ht
+          · exact hok
+        simp [ht, tryDefault_of_ok hok', assignField, finishFieldNoCheck]
+
+theorem fieldMeaning_same (O : Oracles) {a b : FieldSp} (h : FieldSame a b) : fieldMeaning O a = fieldMeaning O b := by
+  simp [fieldMeaning, h.dflt, h.opt, sameMeaning_denote h.ty]
+
+theorem elabFields_same (O : Oracles) (f₁ f₂ : Bool) {as bs : List FieldSp} (h : ClassSame as bs)
+    (ha : as.all (fieldSupported O ptm f₁) = true) (hb : bs.all (fieldSupported O ptm f₂) = true) :
+    elabFields O ptm f₁ as = elabFields O ptm f₂ bs := by
+  induction h with
+  | nil => rfl
+  | cons hab _ ih =>
+    simp only [List.all_cons, Bool.and_eq_true] at ha hb
+    simp only [elabFields, elabField_meaning' O f₁ _ ha.1, elabField_meaning' O f₂ _ hb.1,
+      fieldMeaning_same O hab, ih ha.2 hb.2, hab.name]
+
+
 end Typedpy.Elab
